@@ -195,8 +195,23 @@ type client interface {
 	ReadRest() (bool, string)           // remainder read and verified
 	BigSize() int                       // response size that cannot be written in one go to a client that stopped reading
 	GoneAway() bool                     // the proxy told this connection to stop (Connection: close / GOAWAY): no further request on it
+	Alive() bool                        // false once the proxy has closed the connection (peek, nothing is consumed)
 	Refused() bool                      // HTTP/2 only: the last stream was opened after a graceful GOAWAY the client had not read yet
 	Close()
+}
+
+// peekAlive reports whether the connection behind br is still open: a 1 ms peek that times out (or finds data) means open.
+func peekAlive(c net.Conn, br *bufio.Reader) bool {
+	c.SetReadDeadline(time.Now().Add(time.Millisecond))
+	_, err := br.Peek(1)
+	c.SetReadDeadline(time.Time{})
+	if err == nil {
+		return true
+	}
+	if ne, ok := err.(net.Error); ok && ne.Timeout() {
+		return true
+	}
+	return false
 }
 
 func dialRaw(addr string) (net.Conn, error) {
@@ -286,6 +301,7 @@ func (h *h1Client) ReadRest() (bool, string) {
 func (h *h1Client) Close()        { h.c.Close() }
 func (h *h1Client) BigSize() int  { return bigResp }
 func (h *h1Client) Refused() bool { return false }
+func (h *h1Client) Alive() bool   { return peekAlive(h.c, h.br) }
 func (h *h1Client) GoneAway() bool {
 	return h.resp != nil && (h.resp.Close || strings.EqualFold(h.resp.Header.Get("Connection"), "close"))
 }
@@ -407,6 +423,7 @@ func (b *boltClient) Close()         { b.c.Close() }
 func (b *boltClient) BigSize() int   { return bigResp }
 func (b *boltClient) GoneAway() bool { return false }
 func (b *boltClient) Refused() bool  { return false }
+func (b *boltClient) Alive() bool    { return peekAlive(b.c, b.br) }
 
 func short(err error) string {
 	s := err.Error()
